@@ -289,5 +289,52 @@ theorem runPhases_error_iff (s : Sess) (t : TaskSpec) :
         simp
         intro p hpm; exact hp' p hpm
 
+/-! ### the change scan of `pytask_execute_task_setup` -/
+
+theorem scan_true_ne_unchanged (w : World) (t : Nat) : ∀ (vs : List Nat), scan P g w t true vs ≠ .unchanged
+  | [] => by simp [scan]
+  | v :: vs => by
+    unfold scan
+    simp only [Bool.true_and, if_true]
+    split
+    · simp
+    · split
+      · simp
+      · exact scan_true_ne_unchanged w t vs
+
+/-- "Unchanged" requires a recorded row for every neighbour. -/
+theorem scan_unchanged_rows (w : World) (t : Nat) : ∀ (vs : List Nat) (needs : Bool),
+    scan P g w t needs vs = .unchanged → needs = false ∧ ∀ v ∈ vs, lookup w.db (tv t, v) ≠ none
+  | [], needs, h => by
+    unfold scan at h
+    cases needs <;> simp_all
+  | v :: vs, needs, h => by
+    cases needs
+    · unfold scan at h
+      simp only [Bool.false_and, Bool.false_eq_true, if_false] at h
+      split at h
+      · cases h
+      · have ih := scan_unchanged_rows w t vs _ h
+        refine ⟨rfl, ?_⟩
+        intro u hu
+        rcases List.mem_cons.1 hu with rfl | hu
+        · intro hrow
+          have : hasChanged w t u (stateOf P w u) = true := by
+            unfold hasChanged
+            cases stateOf P w u <;> simp [hrow]
+          rw [this] at ih
+          cases ih.1
+        · exact ih.2 u hu
+    · exact absurd h (scan_true_ne_unchanged w t _)
+
+/-- Only the `execute` implementation raises `SkippedUnchanged`, and only when the scan says so. -/
+theorem setupChain_unchanged (s : Sess) (t : TaskSpec)
+    (h : setupChain P g cfg s t Generated.setupOrder = .skippedUnchanged) :
+    scan P g s.w t.id cfg.force (neighbours g t.id) = .unchanged := by
+  simp only [Generated.setupOrder, setupChain, setupImpl] at h
+  repeat' split at h
+  all_goals first | rfl | cases h | assumption | skip
+  all_goals simp_all
+
 end Engine
 end Pytask
